@@ -1,3 +1,4 @@
+import ClipVerif.Proofs.C14
 import ClipVerif.Proofs.C15
 import ClipVerif.Proofs.C15b
 /-
@@ -70,5 +71,27 @@ theorem trim_closed_area_partial (path : Array Point64)
       isCollinear a b c = true → crossZ a b c = 0) :
     Spec.area2 (pathToI (trimCollinear path false).toList) = Spec.area2 (pathToI path.toList) := by
   exact Proofs.C15b.trim_closed_area_partial path hcol
+
+/-- hence, unconditionally within the coordinate domain: for every closed path with coordinates within
+    2^29 and no coordinate difference of exactly +1 between two of its points (the `triSign` defect,
+    C14), the exact signed area is unchanged.  Rests on the exactness of the 128-bit product
+    comparison (`mulU64_correct`, `productsAreEqual`), so a change to that arithmetic breaks this. -/
+theorem trim_closed_area_inrange (path : Array Point64)
+    (hr : ∀ q ∈ path.toList, q.inRange)
+    (hne : ∀ a b, a ∈ path.toList → b ∈ path.toList → b.X - a.X ≠ 1 ∧ b.Y - a.Y ≠ 1) :
+    Spec.area2 (pathToI (trimCollinear path false).toList) = Spec.area2 (pathToI path.toList) := by
+  apply trim_closed_area_partial
+  intro a b c ha hb hc h
+  exact (Proofs.C14.isCollinear_iff_cross_zero_partial a b c (hr a ha) (hr b hb) (hr c hc)
+    ⟨(hne a b ha hb).1, (hne b c hb hc).2, (hne a b ha hb).2, (hne b c hb hc).1⟩).mp h
+
+/-- non-vacuity: a 2-spaced square with a mid-edge vertex meets both hypotheses -/
+example : (∀ q ∈ (#[⟨0, 0⟩, ⟨2, 0⟩, ⟨4, 0⟩, ⟨4, 4⟩, ⟨0, 4⟩] : Array Point64).toList, q.inRange) ∧
+    (∀ a b, a ∈ (#[⟨0, 0⟩, ⟨2, 0⟩, ⟨4, 0⟩, ⟨4, 4⟩, ⟨0, 4⟩] : Array Point64).toList →
+      b ∈ (#[⟨0, 0⟩, ⟨2, 0⟩, ⟨4, 0⟩, ⟨4, 4⟩, ⟨0, 4⟩] : Array Point64).toList → b.X - a.X ≠ 1 ∧ b.Y - a.Y ≠ 1) := by
+  constructor
+  · intro q hq; simp at hq; rcases hq with rfl | rfl | rfl | rfl | rfl <;> (unfold Point64.inRange; decide)
+  · intro a b ha hb; simp at ha hb
+    rcases ha with rfl | rfl | rfl | rfl | rfl <;> rcases hb with rfl | rfl | rfl | rfl | rfl <;> decide
 
 end C15
